@@ -764,13 +764,18 @@ void reb_integrator_bs_part2(struct reb_simulation* r){
         if (ri_bs->nbody_ode->length != nbody_length){
             reb_ode_free(ri_bs->nbody_ode);
             ri_bs->nbody_ode = NULL;
+            ri_bs->first_or_last_step = 1;
         }
     }
     if (ri_bs->nbody_ode == NULL){ 
+        // Note: the ode also needs to be created after a simulation has been restored from a file or copied.
+        // first_or_last_step is part of the saved state (and 1 after a reset or a change of N): keep it,
+        // reb_ode_create() sets it unconditionally.
+        const int first_or_last_step = ri_bs->first_or_last_step;
         ri_bs->nbody_ode = reb_ode_create(r, nbody_length);
         ri_bs->nbody_ode->derivatives = nbody_derivatives;
         ri_bs->nbody_ode->needs_nbody = 0; // No need to update unless there's another ode
-        ri_bs->first_or_last_step = 1;
+        ri_bs->first_or_last_step = first_or_last_step;
     }
     
     for (int s=0; s < r->N_odes; s++){
